@@ -130,6 +130,10 @@ impl PciTransport {
             if cap_len < 16 {
                 continue;
             }
+            if usize::from(capability.offset) + usize::from(cap_len) > 256 {
+                // The capability claims to extend past the end of the configuration space.
+                continue;
+            }
             let struct_info = VirtioCapabilityInfo {
                 bar: root
                     .configuration_access
